@@ -28,7 +28,7 @@ META = {
     "its emission step; observation judged by membership in the set produced by a nondeterministic reference simulator "
     "(all orders of an element and a group expiry in the same instant); partition judged by the predicate's split; plus stateless exhaustive exploration of thread interleavings (bounded preemptions) of "
     "group_by_until with the durations firing on another thread than the source",
-    "text": "group_by and group_by_until (1, 2, N keys incl. falsy keys; element mappers; durations never/15/20/25/per-key, closing by "
+    "text": "group_by and group_by_until (1, 2, N keys incl. falsy keys; element mappers; durations never/15/20/25/per-key/derived from the group, closing by "
     "element, by completion and by reactivex.timer on the virtual scheduler) and partition/partition_indexed (all catalogue "
     "predicates, both/first-only/second-only subscribed) are executed on every timeline of the tier; each group's key, open "
     "instant, elements with instants, end instant and end kind are compared with the statement's rule; exhaustive within the bound",
@@ -85,8 +85,10 @@ def instances(tier):
         for e in ("none", "tag"):
             yield {"op": "group_by", "key": k, "elem": e}
     # durations: d = relative due time of the group's duration observable (None = never), ck = how it fires
+    # ck "G": the duration is derived from the group itself (group.pipe(skip(99)): it never fires, and it *ends when the group
+    # ends* - the common `lambda g: g.pipe(debounce(...))` shape); by the statement it behaves like a duration that never fires
     durs = [{"d": None, "ck": "N", "by": "all"}, {"d": 15, "ck": "N", "by": "all"}, {"d": 25, "ck": "C", "by": "all"},
-            {"d": 20, "ck": "N", "by": "all"}, {"d": 15, "ck": "T", "by": "first"}]
+            {"d": 20, "ck": "N", "by": "all"}, {"d": 15, "ck": "T", "by": "first"}, {"d": None, "ck": "G", "by": "all"}]
     if not q:
         durs += [{"d": 20, "ck": "C", "by": "all"}, {"d": 25, "ck": "T", "by": "all"}, {"d": 10, "ck": "N", "by": "all"},
                  {"d": 30, "ck": "N", "by": "first"}, {"d": 5, "ck": "C", "by": "all"}]
@@ -196,6 +198,8 @@ def make_group(inst, alpha):
             def duration(group):
                 d = dur_of(group.key)
                 n[0] += 1
+                if ck == "G":
+                    return group.pipe(ops.skip(99))
                 if d is None:
                     return env.cold("dur%d" % n[0], [])
                 if ck == "T":
